@@ -229,7 +229,7 @@ func sameIntValue(a, v ssa.Value) bool {
 }
 
 // base: the values v can have where it is defined.
-func (ia *intSetAnalysis) base(v ssa.Value, depth int) intSet {
+func (ia *intSetAnalysis) base(v ssa.Value, depth int, use *ssa.BasicBlock) intSet {
 	if depth > 4 {
 		return isTop()
 	}
@@ -250,12 +250,98 @@ func (ia *intSetAnalysis) base(v ssa.Value, depth int) intSet {
 		return out
 	case *ssa.Extract:
 		if call, ok := x.Tuple.(*ssa.Call); ok {
-			return ia.result(call.Call.StaticCallee(), x.Index, depth+1)
+			return ia.resultAt(call, x.Index, depth+1, use)
 		}
 	case *ssa.Call:
 		return ia.result(x.Call.StaticCallee(), 0, depth+1)
 	}
 	return isTop()
+}
+
+// resultAt: the values result #i of the call can have where control is in block use: only the returns of the callee that
+// agree with what the branches dominating use say about the *other* results of the same call (`ver, ok, err := f();
+// if err != nil {…}; if ok { use(ver) }` leaves the returns with err == nil and ok == true).
+func (ia *intSetAnalysis) resultAt(call *ssa.Call, i int, depth int, use *ssa.BasicBlock) intSet {
+	g := call.Call.StaticCallee()
+	if g == nil || g.Blocks == nil || ia.inPkg == nil || !ia.inPkg(g) || depth > 4 {
+		return isTop()
+	}
+	// what is known about the other results at the use: +1 true / non-nil, -1 false / nil
+	known := map[int]int{}
+	if use != nil {
+		truths := dominatingTruths(use)
+		for _, r := range referrers(call) {
+			ex, ok := r.(*ssa.Extract)
+			if !ok || ex.Index == i {
+				continue
+			}
+			if t, ok := truths[ex]; ok {
+				if t {
+					known[ex.Index] = 1
+				} else {
+					known[ex.Index] = -1
+				}
+			}
+			for cond, t := range truths {
+				bo, ok := cond.(*ssa.BinOp)
+				if !ok || (bo.Op != token.EQL && bo.Op != token.NEQ) {
+					continue
+				}
+				if (bo.X == ssa.Value(ex) && isNilConst(bo.Y)) || (bo.Y == ssa.Value(ex) && isNilConst(bo.X)) {
+					nonNil := t == (bo.Op == token.NEQ)
+					if nonNil {
+						known[ex.Index] = 1
+					} else {
+						known[ex.Index] = -1
+					}
+				}
+			}
+		}
+	}
+	out := isBottom()
+	n := 0
+	for _, b := range g.Blocks {
+		ret, ok := b.Instrs[len(b.Instrs)-1].(*ssa.Return)
+		if !ok || i >= len(ret.Results) {
+			continue
+		}
+		consistent := true
+		for j, want := range known {
+			if j >= len(ret.Results) {
+				continue
+			}
+			have := 0
+			switch rv := ret.Results[j].(type) {
+			case *ssa.Const:
+				switch {
+				case rv.IsNil():
+					have = -1
+				case rv.Value != nil && rv.Value.String() == "true":
+					have = 1
+				case rv.Value != nil && rv.Value.String() == "false":
+					have = -1
+				}
+			case *ssa.MakeInterface, *ssa.Alloc:
+				have = 1
+			case *ssa.UnOp:
+				if _, isGlobal := rv.X.(*ssa.Global); isGlobal {
+					have = 1 // a package-level sentinel (errors.New at initialisation)
+				}
+			}
+			if have != 0 && have != want {
+				consistent = false
+			}
+		}
+		if !consistent {
+			continue
+		}
+		n++
+		out = out.join(ia.at(ret.Results[i], b, depth))
+	}
+	if n == 0 {
+		return isBottom()
+	}
+	return out
 }
 
 // result: the values result #i of g can have.
@@ -330,7 +416,7 @@ func (ia *intSetAnalysis) at(v ssa.Value, blk *ssa.BasicBlock, depth int) intSet
 	if ins, ok := stripValue(v).(ssa.Instruction); ok && ins.Block() != nil && ins.Parent() == fn {
 		start = ins.Block()
 	}
-	init := ia.base(v, depth)
+	init := ia.base(v, depth, blk)
 	state := map[*ssa.BasicBlock]intSet{start: init}
 	work := []*ssa.BasicBlock{start}
 	for iter := 0; len(work) > 0 && iter < 4000; iter++ {
@@ -356,4 +442,41 @@ func (ia *intSetAnalysis) at(v ssa.Value, blk *ssa.BasicBlock, depth int) intSet
 		return s
 	}
 	return isBottom()
+}
+
+
+// origins: the values v can stem from where control is in block use — phis are opened, results of package functions
+// are followed into the returns that agree with what is known about the other results of the call (as in resultAt).
+func (ia *intSetAnalysis) origins(v ssa.Value, use *ssa.BasicBlock, depth int) []ssa.Value {
+	if depth > 6 {
+		return []ssa.Value{v}
+	}
+	v = stripValue(v)
+	switch x := v.(type) {
+	case *ssa.Phi:
+		var out []ssa.Value
+		for i, e := range x.Edges {
+			out = append(out, ia.origins(e, x.Block().Preds[i], depth+1)...)
+		}
+		return out
+	case *ssa.Extract:
+		call, ok := x.Tuple.(*ssa.Call)
+		if !ok {
+			break
+		}
+		g := call.Call.StaticCallee()
+		if g == nil || g.Blocks == nil || ia.inPkg == nil || !ia.inPkg(g) {
+			break
+		}
+		var out []ssa.Value
+		for _, b := range g.Blocks {
+			ret, ok := b.Instrs[len(b.Instrs)-1].(*ssa.Return)
+			if !ok || x.Index >= len(ret.Results) {
+				continue
+			}
+			out = append(out, ia.origins(ret.Results[x.Index], b, depth+1)...)
+		}
+		return out
+	}
+	return []ssa.Value{v}
 }
